@@ -248,6 +248,34 @@ def render(t):
         for k, v in t['boms']))
     w('    defaultIndent := %d' % int(t['default_indent']))
     w('    defaultEncoding := %s }' % lean_text(t['default_encoding']))
+    dom = t.get('dom', {})
+    classes = dom.get('classes', {})
+
+    def lb(x):
+        return '[' + ', '.join(str(b) for b in x.encode('utf-8')) + ']'
+
+    def lchoices(c):
+        return 'none' if c is None else 'some [%s]' % ', '.join(lean_text(x) for x in c)
+    w('/-- typed option attributes per DOM class: (attribute, option name, type name, choices) -/')
+    w('def domOptionProps : List (String × List (Bytes × Bytes × String × Option (List Text))) := [')
+    w(',\n'.join('  ("%s", [%s])' % (cn, ', '.join(
+        '(%s, %s, "%s", %s)' % (lb(a), lb(d['option']), d['type'], lchoices(d['choices'])) for a, d in c['options']))
+        for cn, c in sorted(classes.items())))
+    w(']')
+    w('/-- forwarding attributes per DOM class: (attribute, subsection attribute, attribute of the subsection) -/')
+    w('def domForwards : List (String × List (Bytes × Bytes × Bytes)) := [')
+    w(',\n'.join('  ("%s", [%s])' % (cn, ', '.join('(%s, %s, %s)' % (lb(a), lb(v[0]), lb(v[1])) for a, v in c['forwards']))
+                 for cn, c in sorted(classes.items())))
+    w(']')
+    w('/-- `default_options`, content `data_type` and `default_value` per DOM class -/')
+    w('def domDefaults : List (String × List (Bytes × Text) × String × String) := [')
+    w(',\n'.join('  ("%s", [%s], "%s", %s)' % (cn, ', '.join('(%s, %s)' % (lb(k), lean_text(v)) for k, v in c['default_options']),
+                                                 c['data_type'], json.dumps(c['default_value']))
+                 for cn, c in sorted(classes.items())))
+    w(']')
+    w('/-- `DiffXDOMWriter._remapped_options` -/')
+    w('def domRemapped : List (Bytes × List (Bytes × Bytes)) := [%s]' % ', '.join(
+        '(%s, [%s])' % (lb(k), ', '.join('(%s, %s)' % (lb(a), lb(b)) for a, b in v)) for k, v in dom.get('remapped', [])))
     w('/-- the state tree under `.. _spec-section-order:` in docs/spec/section-format.rst, as written -/')
     outline = t['spec_tree'].get('outline', [])
     def sid_of(x):
